@@ -288,7 +288,7 @@ class HGenSource(GenSource):
     def h_construct(self, w):
         rng = self.rng
         hts = hybrid_types(w.schema)
-        if not hts or len(self.hlive(w)) >= self.sw["max_objs"]:
+        if not hts or len(self.hlive(w)) >= self.sw["max_objs"] or self.world_leaves(w) > 6000:
             return None
         t = rng.choice(hts)
         place = self.place(w)
@@ -398,7 +398,7 @@ class HGenSource(GenSource):
 
     def h_copy(self, w):
         live = self.hlive(w)
-        if not live:
+        if not live or self.world_leaves(w) > 6000:
             return None
         o = self.rng.choice(live)
         r = self.rng.random()
@@ -432,7 +432,7 @@ class HGenSource(GenSource):
 
     def h_dict(self, w):
         live = self.hlive(w)
-        if not live:
+        if not live or self.world_leaves(w) > 6000:
             return None
         o = self.rng.choice(live)
         r = self.rng.random()
@@ -441,7 +441,7 @@ class HGenSource(GenSource):
 
     def h_restart(self, w):
         live = self.hlive(w)
-        if not live:
+        if not live or self.world_leaves(w) > 6000:
             return None
         k = self.rng.choice([1, 1, 2, 3])
         objs = self.rng.sample(live, min(k, len(live)))
